@@ -17,7 +17,7 @@ type Atom struct {
 }
 
 // Separators that yacc syntax allows in a gap. The empty one only in 'O' gaps.
-var Separators = []string{" ", "\n", "\t", "/* c */", "// c\n", " \n\t ", ""}
+var Separators = []string{" ", "\n", "\t", "/* c */", "// c\n", " \n\t ", "/** c **/", "/* a * b / c */", ""}
 
 type LayoutOpts struct {
 	NoSemicolon bool // omit the optional ';' after each rule group
